@@ -1,50 +1,50 @@
 // C01 correspondence harness: grid-exact geometry pairs through every relate path of the C API.
 //   c01 relate-grid <seed> <n> <outbase>
 //   c01 replay <file>        (file holds case lines; re-evaluates the observations for "A | B" parts)
-#include "gridgen.h"
+#include "relobs.h"
+#include <geos/operation/relateng/RelatePredicate.h>
+#include <geos/operation/relateng/RelateMatrixPredicate.h>
+#include <geos/operation/relateng/IMPatternMatcher.h>
+#include <geos/geom/Envelope.h>
 #include <cstdarg>
 #include <fstream>
 #include <iostream>
-using namespace vh;
-
 static void notice(const char*, ...) {}
 static void errorh(const char*, ...) {}
 
-static const char* FIXED_PATTERNS[] = {"T*F**FFF*", "FF*FF****", "T********", "****T****", "0********", "1********", "2********",
-    "T*T***T**", "1*T***T**", "T*****FF*", "F***1****", "T**FF*FF*", "FT*******", "F**T*****", "F***T****", "*T*******", "***T*****", "******FF*", "**F*F****"};
-
-static char pc(char r) { return r == 0 ? '0' : r == 1 ? '1' : 'E'; }
-
-static std::string observe(GEOSContextHandle_t h, const GEOSGeometry* a, const GEOSGeometry* b, Rng& r, const std::string& fixedPats) {
-    std::string s;
-    for (int rule = 1; rule <= 4; rule++) {
-        char* m = GEOSRelateBoundaryNodeRule_r(h, a, b, rule);
-        s += " m" + std::to_string(rule) + "=" + (m ? m : "E"); if (m) GEOSFree_r(h, m); }
-    { char* m = GEOSRelate_r(h, a, b); s += std::string(" m=") + (m ? m : "E"); if (m) GEOSFree_r(h, m); }
-    { char* m = GEOSRelate_r(h, b, a); s += std::string(" mt=") + (m ? m : "E"); if (m) GEOSFree_r(h, m); }
-    const GEOSPreparedGeometry* pa = GEOSPrepare_r(h, a);
-    { char* m = pa ? GEOSPreparedRelate_r(h, pa, b) : nullptr; s += std::string(" pm=") + (m ? m : "E"); if (m) GEOSFree_r(h, m); }
-    std::string p;   // intersects disjoint touches crosses within contains overlaps equals covers coveredBy
-    p += pc(GEOSIntersects_r(h, a, b)); p += pc(GEOSDisjoint_r(h, a, b)); p += pc(GEOSTouches_r(h, a, b)); p += pc(GEOSCrosses_r(h, a, b));
-    p += pc(GEOSWithin_r(h, a, b)); p += pc(GEOSContains_r(h, a, b)); p += pc(GEOSOverlaps_r(h, a, b)); p += pc(GEOSEquals_r(h, a, b));
-    p += pc(GEOSCovers_r(h, a, b)); p += pc(GEOSCoveredBy_r(h, a, b));
-    s += " P=" + p;
-    std::string q;   // prepared: intersects disjoint touches crosses within contains overlaps covers coveredBy containsProperly
-    if (pa) { q += pc(GEOSPreparedIntersects_r(h, pa, b)); q += pc(GEOSPreparedDisjoint_r(h, pa, b)); q += pc(GEOSPreparedTouches_r(h, pa, b));
-        q += pc(GEOSPreparedCrosses_r(h, pa, b)); q += pc(GEOSPreparedWithin_r(h, pa, b)); q += pc(GEOSPreparedContains_r(h, pa, b));
-        q += pc(GEOSPreparedOverlaps_r(h, pa, b)); q += pc(GEOSPreparedCovers_r(h, pa, b)); q += pc(GEOSPreparedCoveredBy_r(h, pa, b));
-        q += pc(GEOSPreparedContainsProperly_r(h, pa, b)); }
-    s += " Q=" + q;
-    // patterns
-    std::vector<std::string> pats;
-    if (!fixedPats.empty()) { std::istringstream is(fixedPats); std::string t; while (std::getline(is, t, ',')) pats.push_back(t); }
-    else {
-        pats.push_back(FIXED_PATTERNS[r.below(sizeof FIXED_PATTERNS / sizeof FIXED_PATTERNS[0])]);
-        for (int k = 0; k < 2; k++) { std::string t; static const char sym[] = "TF*012***"; for (int i = 0; i < 9; i++) t += sym[r.below(9)]; pats.push_back(t); } }
-    s += " pat=";
-    for (size_t i = 0; i < pats.size(); i++) { if (i) s += ","; s += pats[i] + ":" + pc(GEOSRelatePattern_r(h, a, b, pats[i].c_str())) + pc(pa ? GEOSPreparedRelatePattern_r(h, pa, b, pats[i].c_str()) : 2); }
-    if (pa) GEOSPreparedGeom_destroy_r(h, pa);
-    return s;
+// ---- stream pred-sm: the real predicate classes driven by random event sequences
+static std::string predSM(Rng& r, Out& out, std::string& caseLine) {
+    using namespace geos::operation::relateng;
+    using geos::geom::Location; using geos::geom::Envelope;
+    static const char* kinds[] = {"intersects", "disjoint", "contains", "within", "covers", "coveredBy", "crosses", "equalsTopo", "overlaps", "touches", "pattern"};
+    int ki = (int) r.below(11); std::string kind = kinds[ki]; std::string pat;
+    std::unique_ptr<TopologyPredicate> p;
+    switch (ki) { case 0: p = RelatePredicate::intersects(); break; case 1: p = RelatePredicate::disjoint(); break; case 2: p = RelatePredicate::contains(); break;
+        case 3: p = RelatePredicate::within(); break; case 4: p = RelatePredicate::covers(); break; case 5: p = RelatePredicate::coveredBy(); break;
+        case 6: p = RelatePredicate::crosses(); break; case 7: p = RelatePredicate::equalsTopo(); break; case 8: p = RelatePredicate::overlaps(); break;
+        case 9: p = RelatePredicate::touches(); break;
+        default: { static const char sym[] = "TF*012**"; for (int i = 0; i < 9; i++) pat += sym[r.below(8)]; if (r.chance(40)) pat = FIXED_PATTERNS[r.below(sizeof FIXED_PATTERNS / sizeof FIXED_PATTERNS[0])]; p = RelatePredicate::matches(pat); kind += ":" + pat; } }
+    out.count("kind_" + std::string(kinds[ki]));
+    int dA = r.range(-1, 2), dB = r.range(-1, 2);
+    auto box = [&](bool& isnull, int v[4]) { isnull = r.chance(8); int x0 = r.range(0, 4), x1 = r.range(x0, 5), y0 = r.range(0, 4), y1 = r.range(y0, 5); v[0] = x0; v[1] = x1; v[2] = y0; v[3] = y1; };
+    bool na, nb; int a[4], b[4]; box(na, a); box(nb, b); if (r.chance(15)) { nb = na; for (int i = 0; i < 4; i++) b[i] = a[i]; }
+    Envelope ea = na ? Envelope() : Envelope(a[0], a[1], a[2], a[3]); Envelope eb = nb ? Envelope() : Envelope(b[0], b[1], b[2], b[3]);
+    auto st = [&]() -> char { return p->isKnown() ? (p->value() ? 't' : 'f') : 'u'; };
+    std::string trace;
+    p->init(dA, dB); trace += st();
+    p->init(ea, eb); trace += st();
+    int n = r.range(0, 9);
+    std::string ups;
+    static const Location locs[3] = {Location::INTERIOR, Location::BOUNDARY, Location::EXTERIOR};
+    for (int i = 0; i < n; i++) { int la = (int) r.below(3), lb = (int) r.below(3), d = r.range(0, 2);
+        // respect the geometric bound for two lines
+        if (dA == 1 && dB == 1 && la == 0 && lb == 0 && d == 2) d = 1;
+        p->updateDimension(locs[la], locs[lb], d); trace += st();
+        ups += " " + std::to_string(la) + std::to_string(lb) + std::to_string(d); }
+    p->finish(); trace += st();
+    auto envs = [&](bool isnull, int v[4]) { return isnull ? std::string("n") : (std::to_string(v[0]) + " " + std::to_string(v[1]) + " " + std::to_string(v[2]) + " " + std::to_string(v[3])); };
+    caseLine = "S " + kind + " " + std::to_string(dA) + " " + std::to_string(dB) + " | " + envs(na, a) + " | " + envs(nb, b) + " |" + ups;
+    return trace;
 }
 
 int main(int argc, char** argv) {
@@ -58,13 +58,23 @@ int main(int argc, char** argv) {
             // "R | A | B | obs" -> recompute obs with the same patterns
             std::vector<std::string> parts; size_t p = 0; while (true) { size_t q = line.find(" | ", p); if (q == std::string::npos) { parts.push_back(line.substr(p)); break; } parts.push_back(line.substr(p, q - p)); p = q + 3; }
             if (parts.size() < 3) continue;
+            if (parts[0] == "W") {      // WKT form: W | <wkt A> | <wkt B>
+                GEOSGeometry* wa = GEOSGeomFromWKT_r(h, parts[1].c_str()); GEOSGeometry* wb = GEOSGeomFromWKT_r(h, parts[2].c_str());
+                if (!wa || !wb) { std::cout << "invalid\n"; continue; }
+                parts[1] = dumpGeom((Geometry*) wa); parts[2] = dumpGeom((Geometry*) wb);
+                GEOSGeom_destroy_r(h, wa); GEOSGeom_destroy_r(h, wb); }
             std::string pats; if (parts.size() >= 4) { size_t k = parts[3].find("pat="); if (k != std::string::npos) { std::istringstream is(parts[3].substr(k + 4)); std::string t; std::string acc;
                 while (std::getline(is, t, ',')) { if (!acc.empty()) acc += ","; acc += t.substr(0, 9); } pats = acc; } }
-            auto a = buildGeom(parts[1], gf); auto b = buildGeom(parts[2], gf);
+            std::unique_ptr<Geometry> a, b;
+            try { a = buildGeom(parts[1], gf); b = buildGeom(parts[2], gf); } catch (...) { std::cout << "invalid\n"; continue; }
+            if (GEOSisValid_r(h, (GEOSGeometry*) a.get()) != 1 || GEOSisValid_r(h, (GEOSGeometry*) b.get()) != 1) { std::cout << "invalid\n"; continue; }
             std::cout << "R | " << parts[1] << " | " << parts[2] << " |" << observe(h, (GEOSGeometry*) a.get(), (GEOSGeometry*) b.get(), r, pats) << "\n"; }
         GEOS_finish_r(h); return 0; }
     if (argc < 5) return 2;
     uint64_t seed = std::stoull(argv[2]); long n = std::stol(argv[3]); Out out(argv[4]); Rng r(seed);
+    if (stream == "pred-sm") {
+        for (long i = 0; i < n; i++) { std::string c; std::string t = predSM(r, out, c); out.emit(c, t); }
+        GEOS_finish_r(h); return 0; }
     GridGen gen(r, h, &out);
     for (long i = 0; i < n; i++) {
         gen.span = r.chance(70) ? 6 : (r.chance(50) ? 3 : 8);
